@@ -86,7 +86,11 @@ def run(tier, seed, replay):
     fams = families(tier, seed)
     specs = []
     for k, (fam, cfg) in enumerate(fams):
-        sp = common.mk_spec(k, [cfg])
+        files = [cfg]
+        if k % 3 == 1 and cfg.get("services"):
+            # scopes are declared in the base file; a later overlay mentions every service again without restating its scope
+            files = [cfg, {"services": {n: ({"todo": True} if (sv or {}).get("todo") else {"fields": {"Zeta": 1}}) for n, sv in cfg["services"].items()}}]
+        sp = common.mk_spec(k, files)
         sp["what"] = [fam]
         sp["cfg"] = cfg
         specs.append(sp)
